@@ -222,8 +222,8 @@ CLAIMS["C10"] = {
             "next cell, () -> end, anything else incl. #nil -> None then the tail once); the four Datum constructors attach "
             "span information of the same shape as the value. "
             "Shape (c10_list_meta_shape, c10_vector_meta_shape): the datum builders store every element / dotted tail together with its OWN span information at the same place of the value chain and the span chain (one-step induction + base case over cells and span nodes as heap aggregates); the two heads / vectors are what is returned.",
-    "note": "The accessor claim assumes span information shaped as the builders shape it (SpanInfo::Cons / Vec exactly "
-            "where the value is a pair / vector); vector_iter and as_pair are not separate claims.",
+    "note": "The accessor claims assume span information shaped as the builders shape it (SpanInfo::Cons / Vec exactly "
+            "where the value is a pair / vector), which the shape claims establish; c10_ref_pair_vector covers as_pair and vector_iter.",
 }
 CLAIMS["C11"] = {
     "engine": "E1-kani + E2-mirsym",
